@@ -503,6 +503,25 @@ def _spd_recipe(draw):
     return {"op": node, "t": L.lit(A.tolist(), dt)}, dom
 
 
+MEMBER_SCALE_HEADS = ("Dense", "Minimal", "Diag", "Toeplitz")
+MEMBER_SCALE_EXP = {"f32": [0, -12, -22, -26, -30, 24], "f64": [0, -30, -48, -54, -60, 50]}
+
+
+def _scale_members(v, nb, ks):
+    """Multiply batch member i (row-major over the first nb dimensions of the nested list) by 2**ks[i]."""
+    it = iter(ks)
+
+    def mul(x, f):
+        return [mul(y, f) for y in x] if isinstance(x, list) else x * f
+
+    def rec(x, d):
+        if d == nb:
+            return mul(x, 2.0 ** next(it))
+        return [rec(y, d + 1) for y in x]
+
+    return rec(v, 0)
+
+
 def _vectors(draw, batch, n, m, dt):
     vals = gen.grid(draw, tuple(batch) + (n, m), -16, 16)
 
@@ -589,6 +608,20 @@ def cases(draw, tier):
         # an earlier factorization query on the SAME operator object (fills its caches).  Only in front of the exact
         # eigen / singular value queries: their contract does not depend on which method an earlier call selected.
         case["warm"] = draw(st.sampled_from(WARM))
+    if (
+        _numel(batch) >= 2
+        and r["op"] in MEMBER_SCALE_HEADS
+        and (opn in EXACT_EIG_OPS or (opn in ("root", "root_inv") and case.get("method") in ("symeig", "svd")))
+        and draw(st.integers(0, 1)) == 0
+    ):
+        # batch members of very different magnitude (exact power-of-two factors): the direct eigen / singular value methods
+        # are scale-free per member, and every bound below is per member
+        key = {"Dense": "t", "Minimal": "t", "Diag": "d", "Toeplitz": "c"}[r["op"]]
+        l = r[key]
+        if "exp" not in l:
+            ks = [0] + [draw(st.sampled_from(MEMBER_SCALE_EXP[R.dtype_of(r)])) for _ in range(_numel(batch) - 1)]
+            l["lit"] = _scale_members(l["lit"], len(batch), ks)
+            case["member_scale"] = ks
     if opn == "root_inv" and case.get("method") == "lanczos":
         m = draw(st.sampled_from([0, 0, 1, 2, 3]))
         if m:
